@@ -105,11 +105,16 @@ class ParamsValue:
         return 'Params(%s,%s)' % (getattr(self.params_class, 'name', self.params_class), self.fields)
 
 
+FUNCTION_OWNER = {}
+
+
 class FuncInfo:
     def __init__(self, module, cls, node):
         self.module = module
         self.cls = cls
         self.node = node
+        if cls is not None:
+            FUNCTION_OWNER[id(node)] = cls       # lets the statement evaluator find class constants named through self / cls
         self.name = node.name
         self.kind = 'function' if cls is None else 'method'
         self.abstract = False
